@@ -27,12 +27,12 @@ KNOWN_FILE = os.path.join(VERIF, "known_findings.json")
 # worlds per tier (a wall-clock budget is only a safety net)
 PLAN = {
     "quick": {
-        "C01": dict(worlds=600, wall=150),
-        "C13": dict(worlds=800, wall=150),
-        "C17": dict(worlds=550, wall=150),
-        "C02": dict(worlds=160, wall=150),
-        "C03": dict(worlds=140, wall=150),
-        "C04": dict(worlds=320, wall=150),
+        "C01": dict(worlds=900, wall=170),
+        "C13": dict(worlds=1200, wall=170),
+        "C17": dict(worlds=800, wall=170),
+        "C02": dict(worlds=260, wall=170),
+        "C03": dict(worlds=220, wall=170),
+        "C04": dict(worlds=480, wall=170),
     },
     "thorough": {
         "C01": dict(worlds=9000, wall=1700),
